@@ -46,7 +46,7 @@ type Finding struct {
 		Symptom string `json:"symptom"`
 		Key     string `json:"key_regex"`
 	} `json:"match"`
-	re *regexp.Regexp
+	re, sre *regexp.Regexp
 }
 
 type Reporter struct {
@@ -95,6 +95,13 @@ func (r *Reporter) loadFindings() {
 			os.Exit(2)
 		}
 		f.re = re
+		// the symptom is an anchored regular expression (a plain name matches itself)
+		sre, err := regexp.Compile("^(?:" + f.Match.Symptom + ")$")
+		if err != nil {
+			fmt.Fprintf(os.Stderr, "harness error: known_findings.json %s: %v\n", f.ID, err)
+			os.Exit(2)
+		}
+		f.sre = sre
 		r.findings = append(r.findings, f)
 	}
 }
@@ -110,7 +117,7 @@ func (r *Reporter) Report(v Violation) bool {
 	}
 	r.seenKeys[k] = true
 	for _, f := range r.findings {
-		if f.Match.Symptom == v.Symptom && f.re.MatchString(v.Key) {
+		if f.sre.MatchString(v.Symptom) && f.re.MatchString(v.Key) {
 			r.knownHits[f.ID]++
 			r.suppressed++
 			return false
